@@ -49,6 +49,11 @@ def gen_cases(tier, seed):
         nsh = rng.randint(1, 3)
         wide = d % 3 == 2
         cens = [cg.center(rng, 3.0 if wide else 1.5, 2) for _ in range(3)]
+        # every sixth case: the whole system tens of bohr from the coordinate origin, with points 1e-3 bohr from a nucleus
+        # (innermost shells of an atomic grid): Z/d must not lose digits to |r|^2-sized intermediates
+        far = cg.far_origin(rng) if d % 6 == 4 else None
+        if far is not None:
+            cens = [cg.add(far, c) for c in cens]
         if wide:
             # contracted shells mixing a diffuse and a tight primitive (in either order), on centres a few bohr apart
             basis = []
@@ -65,6 +70,8 @@ def gen_cases(tier, seed):
         nuclei = []
         for k in range(nn):
             pos = rng.choice(cens) if k < 2 else cg.center(rng, 2.0, 2)
+            if far is not None and k >= 2:
+                pos = cg.add(far, pos)
             z = cg.val(cg.dyadic(rng.choice([0.1, 0.5, 1, 2, 7, 26, 100]) * rng.choice([1, 1, -1]) * rng.uniform(0.9, 1.1), 8))
             nuclei.append({"pos": [list(x) for x in pos], "Z": z})
         pts = []
@@ -75,11 +82,13 @@ def gen_cases(tier, seed):
                 p = [list(x) for x in nuc["pos"]]                      # on a nucleus
             elif r < 0.75:
                 o = rng.choice(offs)
-                sc = rng.choice([4, 8, 2])
+                sc = rng.choice([4, 8, 2] if far is None else [4, 2048, 4096])
                 sg = [rng.choice([1, -1]) for _ in range(3)]
                 p = [cg.dyadic(cg.val(c) + s * v / sc, 40) for c, v, s in zip(nuc["pos"], o, sg)]   # exactly representable distance
             else:
                 p = [list(x) for x in cg.center(rng, 3.0, 4)]
+                if far is not None:
+                    p = cg.add(far, p)
             pts.append(p)
         nb = sum(layout.size(s) for s in basis)
         c = {"id": d + 1, "basis": basis, "nuclei": nuclei, "points": pts}
